@@ -347,6 +347,11 @@ impl Rebuildable for Declaration
 						)?;
 					}
 				}
+				if flags.contains(DeclarationFlag::OpaqueStruct)
+				{
+					writeln!(&mut buffer, " {};", identify(name))?;
+					return Ok(buffer);
+				}
 				writeln!(&mut buffer, " {}", identify(name))?;
 				writeln!(&mut buffer, "{}{{", indentation)?;
 				for member in members
